@@ -111,11 +111,11 @@ PROPERTY_RULES = {
     "C08": ["R1", "R2", "R3", "R4", "R7"],
     "C09": ["R8", "R9", "R10", "R5"],
     "C10": ["R23", "R20", "R25", "R9", "R11", "R10", "R26", "R24", "R44"],
-    "C11": ["R24", "R5", "R27", "R6", "R26"],
+    "C11": ["R24", "R5", "R27", "R6", "R26", "R9"],
     "C12": ["R5", "R27", "R3", "R6", "R7", "R17", "R23"],
     "C13": ["R21", "R22", "R28", "R42", "R43"],
-    "C14": ["R21", "R28", "R22", "R20", "R24", "R23", "R42", "R43"],
-    "C15": ["R34"],
+    "C14": ["R21", "R28", "R22", "R20", "R24", "R23", "R42", "R43", "R9"],
+    "C15": ["R34", "R30"],
     "C16": ["R16", "R3", "R17", "R41"],
     "C17": ["R13", "R14", "R26", "R44"],
     "C18": ["R20", "R21", "R7", "R8"],
